@@ -12,6 +12,8 @@ func checkC01(R *Run) {
 	n := R.checkCursor("cursor", nil)
 	R.floor("cursor", 10)
 	_ = n
+	R.rule("frame-feed", "(shared with C02) a positional decoder is only ever handed a whole frame: it is never the destination of io.Copy / io.CopyN / TeeReader from a stream, where each Write would decode whatever one read returned")
+	R.ruleFrameFeed()
 	checkLayouts(R)
 }
 
